@@ -69,6 +69,9 @@ def run(ctx):
     rep.rule('R6.14', 'a pair of groups with equal keys yields their cross product: every row emitted for it is produced inside a loop over the left group and a loop over the right group')
     ctx.attempt(r614, ctx, rep)
     from .common import check_selector_truth as _seltruth
+    rep.rule('R6.16', 'the `nokey` sentinel of the merge loops is told from a real None key by identity: every Comparable(...) call creates a new object')
+    from .common import check_fresh_wrappers as _fresh
+    ctx.attempt(_fresh, ctx, rep, 'R6.16')
     rep.rule('R6.15', 'a key selector (name or position; 0 and \'\' are valid) is never tested for truth')
     ctx.floor('selector_functions', ctx.attempt(_seltruth, ctx, rep, 'R6.15', ctx.functions(['petl.transform.joins'])) or 0, 2)
     rep.rule('R6.13', 'the inputs of the merges are sorted ascending: no sort applied in a join constructor is given a reverse flag')
@@ -82,10 +85,43 @@ def run(ctx):
 
 
 # ------------------------------------------------------------------------- R6.1
+def _crossjoin_squared(ctx, rep):
+    """crossjoin squares each input up by POSITION (stack): cat() rebuilds rows by field name, so a table with a repeated
+    field name (the result of an un-prefixed join or crossjoin) gets the first column's values in every column of that name"""
+    ci = ctx.project.modules['petl.transform.joins'].classes.get('CrossJoinView')
+    if ci is None:
+        raise AnalysisError('anchor vanished: petl.transform.joins:CrossJoinView')
+    init = ci.methods.get('__init__')
+    if init is None:
+        rep.undecided('R6.1', ci, 'CrossJoinView sources', 'no constructor of its own', ci.node)
+        return
+    stores = [x for x in own_nodes(init.node) if isinstance(x, ast.Assign) and any(norm(t) == 'self.sources' for t in x.targets)]
+    if not stores:
+        rep.undecided('R6.1', init, 'self.sources', 'not stored under that name', init.node)
+        return
+    for st in stores:
+        v = st.value
+        elt = v.elt if isinstance(v, (ast.ListComp, ast.GeneratorExp)) else None
+        if isinstance(v, ast.Call) and norm(v.func) in ('list', 'tuple') and v.args and \
+                isinstance(v.args[0], (ast.ListComp, ast.GeneratorExp)):
+            elt = v.args[0].elt
+        c = norm(st)[:70]
+        if isinstance(elt, ast.Call) and norm(elt.func) == 'stack':
+            rep.held('R6.1', init, c, 'each input squared up by position', st)
+        elif isinstance(elt, ast.Call) and norm(elt.func) in ('cat', 'CatView'):
+            rep.violated('R6.1', init, c, 'the inputs are squared up with cat(), which rebuilds every row by field NAME: in a table '
+                         'with a repeated field name all columns of that name get the values of the first one', st)
+        elif isinstance(elt, ast.Name):
+            rep.violated('R6.1', init, c, 'the inputs are not squared up: ragged rows shift the cells of the tables to their right', st)
+        else:
+            rep.undecided('R6.1', init, c, 'the squaring step was not recognised', st)
+
+
 def r61(ctx, rep):
     from . import c11
     from ..tables import tableinfo
     ti = tableinfo(ctx)
+    ctx.attempt(_crossjoin_squared, ctx, rep)
     sub = Report('C11', ctx.tier, ctx.root)
     for vfq in JOIN_VIEWS:
         ci = ctx.project.need_class(vfq)
